@@ -1,6 +1,7 @@
 package astisub
 
 import (
+	"bufio"
 	"context"
 	"errors"
 	"fmt"
@@ -335,7 +336,7 @@ type TeletextOptions struct {
 func ReadFromTeletext(r io.Reader, o TeletextOptions) (s *Subtitles, err error) {
 	// Init
 	s = &Subtitles{}
-	var dmx = astits.NewDemuxer(context.Background(), r)
+	var dmx = astits.NewDemuxer(context.Background(), newTeletextReader(r))
 
 	// Get the teletext PID
 	var pid uint16
@@ -401,6 +402,40 @@ func ReadFromTeletext(r io.Reader, o TeletextOptions) (s *Subtitles, err error) 
 	// Parse pages
 	for _, p := range ps {
 		p.parse(s, cd, firstTime)
+	}
+	return
+}
+
+// teletextReader makes sure every read fills the provided buffer unless the underlying reader is done,
+// since the demuxer detects the packet size and syncs using single reads
+type teletextReader struct {
+	r io.Reader
+}
+
+// teletextReadSeeker is a teletextReader that can be rewinded
+type teletextReadSeeker struct {
+	*teletextReader
+	io.Seeker
+}
+
+func newTeletextReader(r io.Reader) io.Reader {
+	// The demuxer peeks into a *bufio.Reader, nothing to do
+	if _, ok := r.(*bufio.Reader); ok {
+		return r
+	}
+	tr := &teletextReader{r: r}
+	if s, ok := r.(io.Seeker); ok {
+		return &teletextReadSeeker{teletextReader: tr, Seeker: s}
+	}
+	return tr
+}
+
+// Read implements the io.Reader interface
+func (r *teletextReader) Read(p []byte) (n int, err error) {
+	for n < len(p) && err == nil {
+		var nn int
+		nn, err = r.r.Read(p[n:])
+		n += nn
 	}
 	return
 }
